@@ -573,6 +573,96 @@ FIN = Harness(
 HARNESSES.append(FIN)
 
 
+# ------------------------------------------------------------------------------ E-relay
+def relay_params(tier):
+    return [P("mode", 0, 1), P("owner", 0, 1), P("n", 1, 3)]
+
+
+@guard
+def relay_fn(a, tier):
+    """(0) an event object that is dispatched a second time, on another signal (a relay / fan-in); (1) a bound signal that is still in use after its owner is gone."""
+    import gc
+
+    from symkit.choose import is_concrete, resumed
+
+    mode, owner_kind = pick(a["mode"], 2), pick(a["owner"], 2)
+    nn = a["n"]
+    if not is_concrete(nn):
+        with resumed():
+            nn = nn - 1
+    else:
+        nn = nn - 1
+    n = 1 + pick(nn, 3)
+    cls = [Plain, Source][owner_kind]
+    seen = {"first": [], "second": []}
+    problems = []
+
+    async def main():
+        async with anyio.create_task_group() as tg:
+            sensor, hub = cls(), Plain()
+            sig_first, sig_second = sensor.a, hub.b
+
+            async def listen(tag, signal, *, task_status):
+                async with signal.stream_events() as stream:
+                    task_status.started()
+                    async for ev in stream:
+                        seen[tag].append((ev.n, ev.source, ev.topic))  # what the subscriber sees when the event is yielded
+
+            await tg.start(listen, "first", sig_first)
+            await tg.start(listen, "second", sig_second)
+            if mode == 1:
+                del sensor
+                gc.collect()
+            for i in range(n):
+                ev = Ev(i)
+                try:
+                    sig_first.dispatch(ev)
+                    await anyio.wait_all_tasks_blocked()
+                    if mode == 0:
+                        sig_second.dispatch(ev)  # the very same event object, relayed
+                        await anyio.wait_all_tasks_blocked()
+                except Exception as e:  # noqa
+                    problems.append((f"dispatch-raised:{type(e).__name__}", repr(e)))
+            seen["hub"] = hub
+            seen["sensor"] = None if mode == 1 else sensor
+            tg.cancel_scope.cancel()
+
+    _, exc, _k = run(main)
+    summary = {"scenario": ["every event is relayed: dispatched again, as the same object, on a signal of another instance", "the owner of the first signal is garbage before the dispatches"][mode],
+               "owner": ["plain class", "falsy value object"][owner_kind], "events": n}
+    if exc is not None:
+        return FAIL(f"relay:raised:{type(exc).__name__}", repr(exc), summary)
+    if problems:
+        return FAIL("relay:" + problems[0][0], problems[0][1], summary)
+    exp_first = [(i, seen["sensor"], "a") for i in range(n)]
+    if [x[0] for x in seen["first"]] != list(range(n)):
+        return FAIL(f"relay:subscriber-did-not-get-the-events-dispatched-on-its-signal:owner-gone={mode}", f"{seen['first']}", summary)
+    if mode == 0:
+        if any(g[1] is not e[1] or g[2] != e[2] for g, e in zip(seen["first"], exp_first)):
+            return FAIL("relay:first-dispatch-stamp", f"{seen['first']}", summary)
+        exp_second = [(i, seen["hub"], "b") for i in range(n)]
+        got = seen["second"]
+        if len(got) != n or any(g[0] != e[0] or g[1] is not e[1] or g[2] != e[2] for g, e in zip(got, exp_second)):
+            return FAIL("relay:relayed-event-not-stamped-with-the-second-dispatching-instance-and-topic", f"second stream saw {[(g[0], type(g[1]).__name__, g[2]) for g in got]}", summary)
+    return OK(summary, True)
+
+
+RELAY = Harness(
+    prop="C10",
+    name="E-relay",
+    fn=relay_fn,
+    params=relay_params,
+    cube=lambda tier: 0,
+    title="an event object dispatched a second time on another signal; a bound signal used after its owner is gone",
+    bound_text=lambda tier: "1-3 events; (0) each dispatched on sensor.a and then, the same object, on hub.b, with one subscriber each; (1) sensor deleted and collected while its bound "
+    "signal and a subscriber of it live on, then dispatches through the kept bound signal; owner plain / falsy value object",
+    oracle="(0) at the moment it is yielded, each event carries the instance and topic of the dispatch that delivered it; (1) the subscriber still gets every event, dispatch does not raise",
+    outside="what `source` is once the owner is gone",
+    stubs=STUBS_COMMON,
+)
+HARNESSES.append(RELAY)
+
+
 # ------------------------------------------------------------------------------ E-reuse (scenario shared with C11)
 from . import c11 as _c11  # noqa: E402
 
